@@ -632,3 +632,98 @@ Proof.
       * destruct (remove_arg_missing b n LA LK) as [E X]. rewrite E, X, has_varkw_fb.
         destruct (fb_varkw b); [apply IH; exact G | exact I].
 Qed.
+
+(* ---- add_arg ------------------------------------------------------------------------------------------------- *)
+Lemma insert_pos_app q P rest :
+  all_kind PosOrKw P = true ->
+  match rest with [] => True | r :: _ => p_kind r <> PosOrKw end ->
+  insert_pos q (P ++ rest) = P ++ q :: rest.
+Proof.
+  induction P as [|p r IH]; simpl; intros A H.
+  - destruct rest as [|x rest']; [reflexivity|]. simpl. destruct (p_kind x); try reflexivity. congruence.
+  - apply andb_true_iff in A as [A1 A2]. apply kind_eqb_eq in A1. rewrite A1. f_equal. apply IH; assumption.
+Qed.
+
+Lemma rest_head_not_pos an va kwonly kwd vk :
+  match map (fun n => mkP n VarPos None (an n)) (olist va)
+        ++ map (fun n => mkP n KwOnly (d_get kwd n) (an n)) kwonly
+        ++ map (fun n => mkP n VarKw None (an n)) (olist vk) with
+  | [] => True
+  | r :: _ => p_kind r <> PosOrKw
+  end.
+Proof. destruct va, kwonly, vk; simpl; try exact I; discriminate. Qed.
+
+Lemma add_arg_refines b n d : good b -> n <> 0 ->
+  match add_arg b n d, spec_expect (n, d) (fb_sig b) with
+  | Ok b', Ok s' => good b' /\ fb_sig b' = s' /\ same_meta b b'
+  | Ok b', Raise _ => ~ NoDup (all_names b')
+  | Raise _, Raise _ => True
+  | Raise _, Ok _ => False
+  end.
+Proof.
+  intros G Hn0. pose proof G as [ND NZ L KI KN AN AI].
+  unfold add_arg, spec_expect. rewrite named_exists.
+  destruct (mem n (fb_args b)) eqn:MA.
+  { replace (mem n (all_names b)) with true; [exact I|]. symmetry. apply mem_In. apply mem_In in MA.
+    unfold all_names. apply in_or_app. left. exact MA. }
+  destruct (mem n (fb_kwonly b)) eqn:MK.
+  { replace (mem n (all_names b)) with true; [exact I|]. symmetry. apply mem_In. apply mem_In in MK.
+    unfold all_names. apply in_or_app. right. apply in_or_app. right. apply in_or_app. left. exact MK. }
+  rewrite (has_pos_default_fb b L).
+  set (an := d_get (fb_annotations b)). set (args := fb_args b) in *. set (D := odflt (fb_defaults b)) in *.
+  assert (HD : match fb_defaults b with Some (_ :: _) => true | _ => false end =
+               match D with [] => false | _ => true end).
+  { unfold D. destruct (fb_defaults b) as [[|]|]; reflexivity. }
+  rewrite HD.
+  destruct (mem n (all_names b)) eqn:MN.
+  - (* the name of *args / **kwargs: the model goes on with a duplicate name *)
+    apply mem_In in MN.
+    assert (DUP : ~ NoDup ((args ++ [n]) ++ olist (fb_varargs b) ++ fb_kwonly b ++ olist (fb_varkw b))).
+    { intros H. rewrite <- app_assoc in H. simpl in H. apply NoDup_remove_2 in H. apply H. exact MN. }
+    destruct d as [v|].
+    + unfold all_names. cbn [fb_args fb_varargs fb_kwonly fb_varkw]. exact DUP.
+    + destruct D; [|exact I]. unfold all_names. cbn [fb_args fb_varargs fb_kwonly fb_varkw]. exact DUP.
+  - (* a fresh name *)
+    apply mem_false in MN.
+    assert (ANn : an n = None).
+    { apply d_get_none_iff. intro Hk. destruct (AI n Hk) as [E|Hin]; [exact (Hn0 E) | exact (MN Hin)]. }
+    assert (GOOD : forall dflt, length (odflt dflt) <= length (args ++ [n]) ->
+      good (mkFB (fb_name b) (fb_doc b) (fb_module b) (args ++ [n]) (fb_varargs b) (fb_varkw b) dflt
+                 (fb_kwonly b) (fb_kwdefaults b) (fb_annotations b) (fb_async b))).
+    { intros dflt Ld. unfold all_names in ND, NZ, AI, MN. fold args in ND, NZ, AI, MN.
+      constructor; unfold all_names; cbn [fb_args fb_varargs fb_kwonly fb_varkw fb_defaults fb_kwdefaults fb_annotations].
+      - rewrite <- app_assoc. simpl.
+        apply NoDup_app_iff in ND as [N1 [N2 Dj]]. apply NoDup_app_iff. repeat split; [exact N1| |].
+        + constructor; [|exact N2]. intro H. apply MN. apply in_or_app. right. exact H.
+        + intros a Ha [E|Hb]; [subst a; apply MN; apply in_or_app; left; exact Ha | exact (Dj a Ha Hb)].
+      - rewrite <- app_assoc. simpl. intro H. apply in_app_or in H as [H|[H|H]].
+        + apply NZ. apply in_or_app. left. exact H.
+        + exact (Hn0 H).
+        + apply NZ. apply in_or_app. right. exact H.
+      - exact Ld.
+      - exact KI.
+      - exact KN.
+      - exact AN.
+      - intros x Hx. destruct (AI x Hx) as [E|Hin]; [left; exact E | right].
+        rewrite <- app_assoc. simpl. apply in_app_or in Hin as [Hin|Hin]; apply in_or_app; [left; exact Hin | right; right; exact Hin]. }
+    destruct d as [v|].
+    + (* with a default: appended to the defaults tuple *)
+      split; [|split; [|repeat split]].
+      * apply GOOD. cbn [odflt]. fold D. rewrite !app_length. simpl. lia.
+      * unfold fb_sig, mk_sig. cbn [fb_args fb_varargs fb_kwonly fb_varkw fb_defaults fb_kwdefaults fb_annotations odflt sg_params sg_ret].
+        fold an args D. f_equal. unfold mk_params.
+        rewrite (pos_params_snoc_default an args D n v L), ANn.
+        rewrite <- app_assoc. simpl.
+        rewrite (insert_pos_app _ _ _ (pos_params_kinds an args (length args - length D) D) (rest_head_not_pos an _ _ _ _)).
+        reflexivity.
+    + destruct D as [|d0 D0] eqn:ED; [|exact I].
+      split; [|split; [|repeat split]].
+      * apply GOOD. fold D. rewrite ED. simpl. lia.
+      * unfold fb_sig, mk_sig. cbn [fb_args fb_varargs fb_kwonly fb_varkw fb_defaults fb_kwdefaults fb_annotations sg_params sg_ret].
+        fold an args D. rewrite ED. f_equal. unfold mk_params.
+        change (length (@nil value)) with 0.
+        rewrite (pos_params_snoc_nodefault an args n), ANn.
+        rewrite <- app_assoc. simpl.
+        rewrite (insert_pos_app _ _ _ (pos_params_kinds an args (length args - 0) []) (rest_head_not_pos an _ _ _ _)).
+        reflexivity.
+Qed.
